@@ -410,7 +410,7 @@ def rule_r4(rep, repo):
     if ga is None or gb is None:
         raise AnalysisError("unrecognised idiom: default radial grid siblings do not produce `rgrid`")
     d = e5.diff(ga, gb)
-    if d is None:
+    if d is None or e5.algebraically_equal(ga, gb):
         rep.ok("R4.default-rgrid-siblings", "AtomGrid.from_preset~_generate_default_rgrid", fa.loc(), e5.show(ga, 150))
     else:
         rep.violation("R4.default-rgrid-siblings", "molgrid._generate_default_rgrid", "rgrid",
@@ -418,6 +418,87 @@ def rule_r4(rep, repo):
                       f"builds by hand ({e5.show(d[1], 90)}): the convenience constructor no longer produces the grid "
                       f"obtained atom by atom with the same arguments", fb.loc(),
                       [f"first differing node at {d[0]}", f"sibling at {repo.rel('atomgrid', inner)}"])
+
+
+def rule_r5(rep, repo):
+    """No per-atom value may survive into the next iteration of the per-atom loop: a name that is
+    assigned inside the loop *and* read in the same iteration before that assignment (an
+    upward-exposed read, e.g. `if rgrid is None: rgrid = default(atnum)`) carries the value computed
+    for atom k into atom k+1 -- the grid then differs from the one built atom by atom."""
+    for cname in ("from_size", "from_preset", "from_pruned"):
+        f = repo.method("MolGrid", cname)
+        loops = [s for s in strip_docstring(f.node.body) if isinstance(s, ast.For)]
+        if not loops:
+            raise AnalysisError(f"unrecognised idiom: MolGrid.{cname} has no per-atom loop")
+        loop = loops[-1]
+        targets = {n.id for n in ast.walk(loop.target) if isinstance(n, ast.Name)}
+        carried = _upward_exposed_assigned(loop.body, set(targets))
+        if carried:
+            for name, node in sorted(carried.items()):
+                rep.violation("R5.no-loop-carried-per-atom-state", f.qual, name,
+                              f"`{name}` is read and then re-assigned inside the per-atom loop (`{norm(node)[:70]}`): the value "
+                              f"computed for one atom is reused for the following atoms, so the molecular grid differs from "
+                              f"the one obtained by building the atomic grids one by one", repo.rel("molgrid", node))
+        else:
+            rep.ok("R5.no-loop-carried-per-atom-state", f"MolGrid.{cname}", repo.rel("molgrid", loop),
+                   "every name assigned in the per-atom loop is assigned before it is read in that iteration")
+
+
+def _upward_exposed_assigned(body, defined):
+    """{name: assigning stmt} for names that are read before being (definitely) assigned within
+    one iteration and are also assigned somewhere in the loop body."""
+    assigned_somewhere = {}
+    for s in body:
+        for n in ast.walk(s):
+            if isinstance(n, ast.Assign):
+                for t in n.targets:
+                    for x in ast.walk(t):
+                        if isinstance(x, ast.Name) and isinstance(x.ctx, ast.Store):
+                            assigned_somewhere.setdefault(x.id, n)
+            elif isinstance(n, (ast.AugAssign, ast.AnnAssign)) and isinstance(n.target, ast.Name):
+                assigned_somewhere.setdefault(n.target.id, n)
+    exposed = set()
+
+    def reads(expr, d):
+        for x in ast.walk(expr):
+            if isinstance(x, ast.Name) and isinstance(x.ctx, ast.Load) and x.id in assigned_somewhere and x.id not in d:
+                exposed.add(x.id)
+
+    def block(stmts, d):
+        d = set(d)
+        for s in stmts:
+            if isinstance(s, ast.If):
+                reads(s.test, d)
+                d1 = block(s.body, d)
+                d2 = block(s.orelse, d)
+                t1 = bool(s.body) and isinstance(s.body[-1], (ast.Raise, ast.Return, ast.Continue, ast.Break))
+                t2 = bool(s.orelse) and isinstance(s.orelse[-1], (ast.Raise, ast.Return, ast.Continue, ast.Break))
+                d = d2 if t1 and not t2 else d1 if t2 and not t1 else (d1 & d2)
+            elif isinstance(s, ast.Assign):
+                reads(s.value, d)
+                for t in s.targets:
+                    for x in ast.walk(t):
+                        if isinstance(x, ast.Name) and isinstance(x.ctx, ast.Store):
+                            d.add(x.id)
+                        elif isinstance(x, ast.Name):
+                            reads(x, d)
+            elif isinstance(s, ast.AugAssign):
+                reads(s.value, d)
+                if isinstance(s.target, ast.Name) and s.target.id not in d:
+                    exposed.add(s.target.id)
+            elif isinstance(s, (ast.For, ast.While)):
+                reads(s.iter if isinstance(s, ast.For) else s.test, d)
+                inner = set(d)
+                if isinstance(s, ast.For):
+                    inner |= {x.id for x in ast.walk(s.target) if isinstance(x, ast.Name)}
+                block(s.body, inner)
+            else:
+                for ch in ast.iter_child_nodes(s):
+                    if isinstance(ch, ast.expr):
+                        reads(ch, d)
+        return d
+    block(body, defined)
+    return {n: assigned_somewhere[n] for n in exposed}
 
 
 def run(tier="quick", root="/repo", evidence_dir=None, quiet=False):
@@ -429,5 +510,6 @@ def run(tier="quick", root="/repo", evidence_dir=None, quiet=False):
     rule_r2(rep, repo)
     rule_r3(rep, repo)
     rule_r4(rep, repo)
+    rule_r5(rep, repo)
     rep.extra["source_digest"] = repo.digest(["molgrid", "atomgrid"])
     return rep.finish(evidence_dir=evidence_dir, quiet=quiet)
